@@ -1,12 +1,14 @@
 """C10 Collections answer as the composition of their children, indexed or not."""
 import json, os
-import vlib, objs_common as oc
+import vlib, objs_common as oc, session_common as sc
 
 PID = "C10"
 
 
 def prepare():
     oc.gen()
+    sc.mc()
+    sc.warm()
 
 
 def is_coll(t):
@@ -18,7 +20,13 @@ def is_coll(t):
 def run(tier, seed, t0):
     data, meta, summ, events, out = oc.replay(PID, tier, seed)
     v = vlib.Verdict(PID)
-    nrel = oc.classify_rel(v, events, only=lambda e: is_coll(e["A"]) or is_coll(e["B"]))
+    # the session machine: behaviours of spec/Session.tla stepped through the real library
+    sev, ssum, smeta, mcm = sc.replay(PID, tier, seed)
+    nrel = oc.classify_rel(v, events + sev, only=lambda e: is_coll(e["A"]) or is_coll(e["B"]))
+    for e in sev:
+        if e["op"] == "session" and e["what"] in ("state", "empty", "rect", "npoints", "search") and (e["what"] == "search" or sc.is_coll_tree(e.get("tree"))):
+            v.violation({"property": PID, "event": e, "what": "session step %d (%s): %s of the object at key %s: got %s, the specification says %s" % (
+                e["step"], e["history"][-1], e["what"], e.get("key"), json.dumps(e.get("got"))[:300], json.dumps(e.get("exp"))[:300])})
     facts = [e for e in events if e["op"] == "fact"]
     for e in facts:
         v.violation({"property": PID, "event": e, "what": "%s of %s (variant %s): got %s, expected %s" % (e["what"], json.dumps(e["tree"])[:300], e["variant"], e["got"], e["exp"])})
@@ -44,7 +52,7 @@ def run(tier, seed, t0):
             v.violation({"property": PID, "event": e, "what": "%s %s: the collection answers %s, some child answers %s" % (e["kind"], e["what"], e["got"], e["some_child"])})
     rc = v.finish()
     cov = {
-        "states": meta["distinct"], "transitions": meta["generated"], "traces_validated_against_impl": 0,
+        "states": meta["distinct"], "transitions": meta["generated"], "traces_validated_against_impl": smeta["behaviours"],
         "evaluations": summ["relation_calls"] + summ["fact_checks"], "distinct_nontrivial": summ["objects"],
         "rule": "the Gen_Obj universe (see C09; 670 objects incl. collections of 65-70 children): for every object the L1 emptiness, "
                 "rectangle (union of the non-empty children), children order and, for collections, the set of children a Search must "
@@ -57,6 +65,7 @@ def run(tier, seed, t0):
         "samples": [{"generated_object": json.loads(open(data).readline())[:5]}],
         "fact_checks": summ["fact_checks"], "fact_mismatches": len(facts), "single_child_collection_events": nsingle, "relation_mismatches_involving_collections": nrel,
         "known_finding_hits": v.known_hits,
+        "session_machine": sc.evidence(ssum, smeta, mcm, sev),
     }
     vlib.write_evidence(PID, tier, seed, t0, cov, [vlib.TOOLS, vlib.A_FLOAT,
                         "the child R-tree (github.com/tidwall/rtree) is a black box: only its Search results are observed",
